@@ -228,6 +228,13 @@ func (rs *RequestServer) packetWorker(ctx context.Context, pktChan chan orderedR
 			}
 		}
 
+		if err := attrsError(pkt.requestPacket); err != nil {
+			// the attribute block does not match its flags: answer, but never hand it to a handler.
+			rs.pktMgr.readyPacket(
+				rs.pktMgr.newOrderedResponse(statusFromError(pkt.id(), err), orderID))
+			continue
+		}
+
 		var rpkt responsePacket
 		switch pkt := pkt.requestPacket.(type) {
 		case *sshFxInitPacket:
@@ -327,6 +334,29 @@ func (rs *RequestServer) packetWorker(ctx context.Context, pktChan chan orderedR
 			rs.pktMgr.newOrderedResponse(rpkt, orderID))
 	}
 	return nil
+}
+
+// attrsError reports whether the raw attribute block of an OPEN, SETSTAT or FSETSTAT request
+// is shorter than its flags word promises.
+func attrsError(pkt requestPacket) error {
+	var flags uint32
+	var attrs any
+	switch p := pkt.(type) {
+	case *sshFxpOpenPacket:
+		flags, attrs = p.Flags, p.Attrs
+	case *sshFxpSetstatPacket:
+		flags, attrs = p.Flags, p.Attrs
+	case *sshFxpFsetstatPacket:
+		flags, attrs = p.Flags, p.Attrs
+	default:
+		return nil
+	}
+	b, ok := attrs.([]byte)
+	if !ok {
+		return nil
+	}
+	_, _, err := unmarshalFileStat(flags, b)
+	return err
 }
 
 // clean and return name packet for file
